@@ -574,6 +574,23 @@ def _run_continuum(case):
                         if np.abs(Fu[~selmask]).max(initial=0.0) != 0.0:
                             vio.append(viol("outside_zero", f"{tag}: point load reaches nodes that were not selected", **dict(cx.key, sel=sname, form=form)))
                     nontrivial |= nn.size > 1
+            # per-node float array given by the caller and used for several components / re-applied in a load history:
+            # the same array object must keep its values and give the same nodal loads every time
+            if len(unknowns) >= 2 and nodes.size >= 2 and sel in ("face", "all"):
+                w = 2.0 * (1.0 + 0.1 * np.arange(nodes.size, dtype=float))
+                w0 = w.copy()
+                vec1 = _apply(cx, load, nodes, [w, w], unknowns[:2])
+                vec2 = _apply(cx, load, nodes, [w, w], unknowns[:2])
+                kk = dict(cx.key, sel=sel, form="array_reused")
+                Fa, Fb = _comp(cx, vec1, unknowns[0]), _comp(cx, vec1, unknowns[1])
+                cx.obs.append(float(Fa.sum()))
+                if not np.array_equal(w, w0):
+                    vio.append(viol("input_modified", f"{tag}: add_neumann modified the caller's value array in place", **kk))
+                if np.abs(Fa - Fb).max() > 1e-13 * max(np.abs(Fa).max(), 1e-300):
+                    vio.append(viol("point_components", f"{tag}: the same per-node array entered for {unknowns[0]} and {unknowns[1]} gives different nodal loads "
+                                                        f"(sums {Fa.sum()!r} / {Fb.sum()!r})", **kk))
+                if np.abs(vec1 - vec2).max() > 1e-13 * max(np.abs(vec1).max(), 1e-300):
+                    vio.append(viol("point_repeat", f"{tag}: re-entering the same point load after Bc_Init() gives a different load vector", **kk))
             continue
         # ---------------- distributed loads
         info = _loaded_info(mesh, ldim, mask, cx.X)
@@ -638,6 +655,15 @@ def _run_continuum(case):
             vio += _check_distributed(cx, vec, region, spec, support, sel, form, tag)
             if info["n"] >= 2 and np.abs(vec).max(initial=0.0) > 0:
                 nontrivial = True
+            if form == "const" and nodes.size >= 2:
+                # a node LIST with repeated entries (e.g. the concatenated node lists of two adjacent faces) selects the same node SET
+                for dname, nd in (("dup_half", np.concatenate([nodes, nodes[: max(1, nodes.size // 2)]])),
+                                  ("dup_other_half", np.concatenate([nodes[nodes.size // 2:], nodes]))):
+                    vals_d, uo_d = _spec_values(cx, spec, form, nd, None)
+                    vec_d = _apply(cx, load, nd, vals_d, uo_d)
+                    if np.abs(vec_d - vec).max(initial=0.0) > 1e-13 * max(np.abs(vec).max(initial=0.0), 1e-300):
+                        vio.append(viol("duplicate_nodes_effect", f"{tag}: repeating node ids in the selection list changes the load vector by "
+                                                                  f"{np.abs(vec_d - vec).max():.3e}", **dict(cx.key, sel=sel + "_" + dname, form=form)))
             if strays.size and (form in ("const", "nodal") or sum(sum(e) for _, e in spec.values()) <= 1):
                 nn2 = np.concatenate([nn, strays])
                 if form == "nodal":
